@@ -175,7 +175,15 @@ func oracleC26(v *View, vd *Verdict) {
 					vd.Add("C26", fmt.Sprintf("C26/effect-missing/%s/qos%d", a.op, q), "client %s: %s returned nil but the broker saw no such PUBLISH", cp.Name, a.desc)
 				}
 			case "disconnect":
-				if !find(func(m refmqtt.Pkt) bool { return m.Type == refmqtt.DISCONNECT }) {
+				// (the gateway answers the client first and tells the broker right after: the DISCONNECT may
+				// reach the broker a moment after the call has returned)
+				seen := false
+				for _, e := range brx {
+					if e.Idx > a.invIdx && e.MQ.Type == refmqtt.DISCONNECT {
+						seen = true
+					}
+				}
+				if !seen {
 					sent := false
 					for _, t := range clientTx(v, cp.Name) {
 						if t.Idx > a.invIdx && t.Idx < a.retIdx && t.SNErr == nil && t.SN.Type == refsn.DISCONNECT {
